@@ -9,6 +9,7 @@
 -/
 import WD.Proofs.Decoders
 import WD.Proofs.Mac.Sticky
+import WD.Proofs.Win.Burst
 namespace WD.C20
 open WD.Dec
 
@@ -74,6 +75,29 @@ theorem win_noise (fs : FS) (recursive : Bool) (st : Win.EmSt) (recs recs' : Lis
 theorem win_cut (fs : FS) (recursive : Bool) (st : Win.EmSt) (a b : List Win.WRec) :
     Win.emitBatches fs recursive st [a, b] = Win.emitBatch fs recursive st (a ++ b) := by
   rw [Win.emitBatches_flatten]; simp
+
+/-- Windows, several operations per read: a burst of FILE operations (creations, writes, attribute changes, removals,
+    renames and moves of files) whose records reach `queue_events` in ONE read after the last of them - the emitter then
+    looks at the file system as it is at that moment - leaves the emitter in the same state and delivers the same events,
+    in the same order, as one read per operation (so contract and replay carry over: `win_contract_refined`, `win_replay`).
+    Bursts that create, rename or remove directories are not covered: the emitter's `os.path.isdir` / directory walk then
+    sees a later file system (explored on the real emitter, judged by the replay predicate). -/
+theorem win_burst_files_partial (s : Win.WSys) (ops : List Op) (hwf : s.fs.WF) (hs : s.st.stopped = false)
+    (hv : Win.winAllFile s.fs ops = true) :
+    s.burst ops = ((s.run ops).1, (s.run ops).2.flatten) :=
+  Win.burst_files ops s hwf hs hv
+
+/-- non-vacuity: create, write, rename, remove, re-create the old name - five operations in one read -/
+example :
+    let s : Win.WSys := ⟨fsRun FS.init [.mkdir ["W", "d"]], {}, true⟩
+    let ops := [Op.create ["W", "d", "a"], .write ["W", "d", "a"], .rename ["W", "d", "a"] ["W", "b"], .unlink ["W", "b"],
+                .create ["W", "d", "a"]]
+    Win.winAllFile s.fs ops = true ∧
+    (s.burst ops).2.map PEv.toEvent =
+      [⟨.FileCreatedEvent, "W/d/a", "", false⟩, ⟨.FileModifiedEvent, "W/d/a", "", false⟩,
+       ⟨.FileMovedEvent, "W/d/a", "W/b", false⟩, ⟨.FileDeletedEvent, "W/b", "", false⟩,
+       ⟨.FileCreatedEvent, "W/d/a", "", false⟩] := by
+  decide +kernel
 
 /-- FSEvents: for every such history, every operation drained, the delivered stream is the FSEvents contract's
     (`Mac.macContract`), operation by operation; a non-recursive watch delivers the part of it that its filter lets
